@@ -207,3 +207,21 @@ CONTRACTS = [
         },
     ),
 ]
+
+# ---- C10: the assembly raises nothing of its own (same body, same invariants, exception contract only) -----------------------
+_bd = [c for c in CONTRACTS if c.func == SL + "_build_digraph"][0]
+CONTRACTS.append(
+    Contract(
+        SL + "_build_digraph#C10",
+        props=["C10"],
+        params=_bd.params,
+        requires=dict(_bd.requires, statement_holders_have_non_null_nodes="forall(lambda j: implies(0 <= j and j < len(args), forall(lambda n: implies(gnode(args[j].graph, n), n is not None))), j='int')"),
+        raises={"<unknown>": {"when": None}},
+        modifies=[],
+        returns="DiGraph",
+        at_calls=False,
+        loops={k: LoopSpec(inv=dict(v.inv), modifies=list(v.modifies), unroll=v.unroll, allocates=v.allocates) for k, v in _bd.loops.items()},
+        notes="internal-error freedom of the assembly: no KeyError / NetworkXError / ValueError / AttributeError path is feasible (single-pair RENAME statements; the metadata provider may raise its own errors)",
+    )
+)
+
